@@ -89,9 +89,6 @@ PRINTER = "grep-printer"
 # c16_linebuffer_read_error) and the differential c19_interpolate_diff (kani/matcher/interpolate.rs, TN=3).
 # Their sources are kept for reference; nothing is claimed from them.
 UNITS = [
-    unit("c09_base64_roundtrip", ["C09"], PRINTER, "jsont::verif_kani",
-         "jsont::base64_standard on fully symbolic <=4 bytes: RFC 4648 reference decoder recovers exactly the input; length, padding",
-         ["jsont::base64_standard"], timeout=1500, heavy=True, tier="thorough"),
     unit("c09_data_from_bytes", ["C09"], PRINTER, "jsont::verif_kani",
          "jsont::Data::from_bytes on fully symbolic <=4 bytes: Text iff valid UTF-8 (independent validator), bytes preserved",
          ["jsont::Data::from_bytes"], timeout=900),
@@ -394,34 +391,34 @@ FAMILIES = [
                 "(== slice strategy); hit patterns x (A,B) in {(0,0),(1,1)} enumerated in-harness; line numbering symbolic",
                 READER_FUNCS, timeout=1500, rules=searcher_rules(2), unwind=lambda sh: 40,
                 quick_shapes=["q_empty", "q_one_unterm", "q_blank", "q_two", "q_blank_mid", "q_blank_first", "q_crlf_blank", "q_nul", "z_nl_in_record"],
-                shape_filter=lambda sh: sh.nl <= 3 and len(sh.hay) <= 7),
+                shape_filter=lambda sh: sh.nl <= 3 and len(sh.hay) <= 6),
     ShapeFamily("c02_reader_tiny_inv", ["C02"], SEARCHER, CORE_MOD, GEN,
                 "ReadByLine over LineBufferReader, capacity 1 / 1-byte reads (a roll and a grow at every byte) == grep model "
                 "(== slice strategy); INVERTED; hit patterns x (A,B) in {(0,0),(1,1)} enumerated in-harness; line numbering symbolic",
                 READER_FUNCS, timeout=1500, rules=searcher_rules(2), unwind=lambda sh: 40,
                 quick_shapes=["q_empty", "q_one_unterm", "q_blank", "q_two", "q_blank_mid", "q_blank_first", "q_crlf_blank", "q_nul", "z_nl_in_record"],
-                shape_filter=lambda sh: sh.nl <= 3 and len(sh.hay) <= 7),
+                shape_filter=lambda sh: sh.nl <= 3 and len(sh.hay) <= 6),
     ShapeFamily("c02_reader_wide", ["C02"], SEARCHER, CORE_MOD, GEN,
                 "reader strategy, fragmentation (2,3), contexts (1,0),(0,1), stop-on-nonmatch off/on (incl. final byte count "
                 "== slice strategy's) == grep model", READER_FUNCS, timeout=1500, rules=searcher_rules(2), unwind=lambda sh: 40,
-                quick_shapes=["q_two", "q_blank_mid", "q_blank_last", "q_nul"], shape_filter=lambda sh: sh.nl <= 3 and len(sh.hay) <= 7),
+                quick_shapes=["q_two", "q_blank_mid", "q_blank_last", "q_nul"], shape_filter=lambda sh: sh.nl <= 3 and len(sh.hay) <= 6),
     ShapeFamily("c02_reader_wide2", ["C02"], SEARCHER, CORE_MOD, GEN,
                 "reader strategy, fragmentation (4,2), contexts (1,0),(0,1), stop-on-nonmatch off/on (incl. final byte count "
                 "== slice strategy's) == grep model", READER_FUNCS, timeout=1500, rules=searcher_rules(2), unwind=lambda sh: 40,
-                quick_shapes=["q_two", "q_blank_mid", "q_blank_last", "q_nul"], shape_filter=lambda sh: sh.nl <= 3 and len(sh.hay) <= 7),
+                quick_shapes=["q_two", "q_blank_mid", "q_blank_last", "q_nul"], shape_filter=lambda sh: sh.nl <= 3 and len(sh.hay) <= 6),
     ShapeFamily("c02_reader_passthru", ["C02"], SEARCHER, CORE_MOD, GEN,
                 "reader strategy with passthru (x invert x stop-on-nonmatch) == grep model",
                 READER_FUNCS, timeout=1500, rules=searcher_rules(2), unwind=lambda sh: 40,
-                quick_shapes=["q_two", "q_blank_mid"], shape_filter=lambda sh: sh.nl <= 3 and len(sh.hay) <= 7),
+                quick_shapes=["q_two", "q_blank_mid"], shape_filter=lambda sh: sh.nl <= 3 and len(sh.hay) <= 6),
     ShapeFamily("c02_reader_reuse", ["C02", "C03"], SEARCHER, CORE_MOD, GEN,
                 "one line buffer reused for two consecutive reader searches (as Searcher does per file): both runs == grep model "
                 "(offsets and byte count start from zero again)",
                 READER_FUNCS + ("LineBufferReader::new", "LineBuffer::clear"), timeout=1500, rules=searcher_rules(2),
-                unwind=lambda sh: 40, quick_shapes=["q_two", "q_blank_mid"], shape_filter=lambda sh: sh.nl <= 3 and len(sh.hay) <= 7),
+                unwind=lambda sh: 40, quick_shapes=["q_two", "q_blank_mid"], shape_filter=lambda sh: sh.nl <= 3 and len(sh.hay) <= 6),
     ShapeFamily("c16_slice", ["C16"], SEARCHER, CORE_MOD, GEN,
                 "slice strategy: sink refuses (stop) or fails at symbolic event index k: delivered == prefix of full "
                 "stream (+ exactly one finish after stop, none after error); symbolic hit table and configuration (A,B<=1)",
-                SLOW_E2E_FUNCS, heavy=True, timeout=900, rules=searcher_rules(2), quick_shapes=["q_one", "q_two"], thorough_shapes=["q_blank_mid", "q_crlf_mix", "q_blank"], shape_filter=lambda sh: sh.nl <= 3 and len(sh.hay) <= 7),
+                SLOW_E2E_FUNCS, heavy=True, timeout=900, rules=searcher_rules(2), quick_shapes=["q_one", "q_two"], thorough_shapes=["q_blank_mid", "q_crlf_mix", "q_blank"], shape_filter=lambda sh: sh.nl <= 3 and len(sh.hay) <= 6),
     ShapeFamily("c16_slice_before1", ["C16"], SEARCHER, CORE_MOD, GEN,
                 "slice strategy, contexts fixed to (A,B)=(0,1) (a separator ahead of a before-context line needs 4 lines): sink refuses or "
                 "fails at symbolic event index k, symbolic hit table: prefix property",
@@ -442,7 +439,7 @@ FAMILIES = [
                 "reader strategy: read() fails (Other and Interrupted) at every call index j: error returned, no finish, prefix; "
                 "hit pattern x (A,B) in {(0,0),(1,1)} x j x kind enumerated in-harness",
                 READER_FUNCS, timeout=1500, rules=searcher_rules(2), unwind=lambda sh: 40,
-                quick_shapes=["q_one", "q_two"], shape_filter=lambda sh: sh.nl <= 2 and len(sh.hay) <= 4),
+                quick_shapes=["q_one", "q_two"], shape_filter=lambda sh: sh.nl <= 2 and len(sh.hay) <= 4 and (sh.nl >= 2 or sh.hay[-1:] in (b"\n", b"\0"))),
     ShapeFamily("c13_multiline", ["C13"], SEARCHER, CORE_MOD, GEN,
                 "MultiLine::run == lines covered by the successive matches of a span table (merged runs, contexts, invert, "
                 "passthru, numbering); EVERY span table of the shape (<=3 bytes) / every table with <=2 match starts (4-5 bytes) "
@@ -697,7 +694,7 @@ EXTRA_TOML = ""
 class HObl:
     engine = "H"
 
-    def __init__(self, name, props, mode, kinds, desc, functions, timeout=1500):
+    def __init__(self, name, props, mode, kinds, desc, functions, timeout=3000):
         self.name = name
         self.props = props
         self.mode = mode
